@@ -15,7 +15,7 @@ RULE = ("a base chart (Song, SyncTrack, Events (sometimes empty) and a random su
         "Chart.from_file(StringIO); by-path files carry non-ASCII text (2-, 3- and 4-byte sequences) and a stream of them is damaged into invalid UTF-8 (0xFF byte, overlong form, surrogate, stray continuation, truncated sequence: ValueError on both sides); unknown sections inserted anywhere (names that merely start with a valid header such as ExpertSingleBackup, names with blanks, bodies containing header-like "
         "lines at column 0, other sections' lines, indented braces), each required section removed in turn; judged against the implementation's parse of the canonical rendering: equal metadata / "
         "sync / events, tracks equal as a finite map stored under exactly the expected (instrument, difficulty) keys and labelled with them, chartparse.chart log = one record per unknown "
-        "section, ValueError when a required section is missing. Non-trivial: every variant that differs from the canonical rendering; distinct by (text, mode)")
+        "section, ValueError when a required section is missing; a few by-path files are larger than a read block with their first non-ASCII character straddling a 4 / 8 / 64 KiB boundary; the section names are the DOCUMENTED ones (not read back from the implementation); the canonical rendering itself must parse, log nothing and yield one event per body line. Non-trivial: every variant that differs from the canonical rendering; distinct by (text, mode)")
 ASSUMPTIONS = ["by path the model starts from the file's BYTES: utf-8-sig decoding is the hand-written codec model Base/Utf8.v (proved a bijection on valid UTF-8), compared with CPython's codec on every by-path case incl. undecodable files; through from_file(StringIO) it starts from code points",
                "section names are distinct, non-empty and free of line breaks; no body line is exactly '{' or '}' (the property's well-formed files)"]
 
